@@ -83,3 +83,97 @@ Example C03_nonvacuous :
   sortedZ [1; 2; 2; 5; 9] /\ canonical [(2, 3); (5, 9)]
   /\ restrict_idx [1; 2; 2; 5; 9] [(2, 3); (5, 9)] = [1; 2; 3; 4]%nat.
 Proof. vm_compute. intuition congruence. Qed.
+From Verif Require Import Proofs.BaseLemmas Proofs.C01Top.
+
+(* ====================================================================================================
+   restrict against the three set operations (public results), for series whose samples are farther than
+   1 us from every endpoint of a and b (the exception C02 itself makes), and the order-independence of two
+   successive restricts (no exception). *)
+
+Lemma restrict_commute ts a b : sortedZ ts -> canonical a -> canonical b ->
+  restrict_ts (restrict_ts ts a) b = restrict_ts (restrict_ts ts b) a.
+Proof.
+  intros Hs Ha Hb. rewrite (restrict_restrict ts a b Hs Ha Hb), (restrict_restrict ts b a Hs Hb Ha).
+  apply filter_ext_Forall. apply Forall_forall. intros x _. apply Bool.andb_comm.
+Qed.
+
+Lemma restrict_union_filter ts a b : sortedZ ts -> canonical a -> canonical b -> Forall (fun x => far x a b) ts ->
+  restrict_ts ts (iset_union a b) = filter (fun x => mem x a || mem x b) ts.
+Proof.
+  intros Hs Ha Hb Hfar. rewrite (restrict_ts_spec ts (iset_union a b) Hs) by (apply (ops_canonical a b)).
+  apply filter_ext_Forall. eapply Forall_impl'; [|exact Hfar]. intros x Hx. cbv beta in *.
+  apply wrapper_union_mem; assumption.
+Qed.
+
+Lemma restrict_diff_filter ts a b : sortedZ ts -> canonical a -> canonical b -> Forall (fun x => far x a b) ts ->
+  restrict_ts ts (iset_diff a b) = filter (fun x => mem x a && negb (mem x b)) ts.
+Proof.
+  intros Hs Ha Hb Hfar. rewrite (restrict_ts_spec ts (iset_diff a b) Hs) by (apply (ops_canonical a b)).
+  apply filter_ext_Forall. eapply Forall_impl'; [|exact Hfar]. intros x Hx. cbv beta in *.
+  apply wrapper_diff_mem; assumption.
+Qed.
+
+Lemma restrict_inter_filter ts a b : sortedZ ts -> canonical a -> canonical b -> Forall (fun x => far x a b) ts ->
+  restrict_ts ts (iset_inter a b) = filter (fun x => mem x a && mem x b) ts.
+Proof.
+  intros Hs Ha Hb Hfar. rewrite <- (restrict_restrict ts a b Hs Ha Hb). symmetry. apply restrict_restrict_intersect; assumption.
+Qed.
+
+Lemma filter_split_length (p q r : Z -> bool) l : (forall x, In x l -> p x = q x || r x) -> (forall x, In x l -> q x && r x = false) ->
+  length (filter p l) = (length (filter q l) + length (filter r l))%nat.
+Proof.
+  induction l as [|x t IH]; intros H1 H2; [reflexivity|]. simpl.
+  specialize (IH (fun y Hy => H1 y (or_intror Hy)) (fun y Hy => H2 y (or_intror Hy))).
+  pose proof (H1 x (or_introl eq_refl)) as E1. pose proof (H2 x (or_introl eq_refl)) as E2.
+  destruct (p x), (q x), (r x); simpl in *; try discriminate; lia.
+Qed.
+
+(* the samples of ts inside a are split, without loss or duplication, between a.intersect(b) and a.set_diff(b) *)
+Lemma restrict_partition ts a b : sortedZ ts -> canonical a -> canonical b -> Forall (fun x => far x a b) ts ->
+  length (restrict_ts ts a) = (length (restrict_ts ts (iset_inter a b)) + length (restrict_ts ts (iset_diff a b)))%nat.
+Proof.
+  intros Hs Ha Hb Hfar.
+  rewrite (restrict_inter_filter ts a b), (restrict_diff_filter ts a b), (restrict_ts_spec ts a) by assumption.
+  apply filter_split_length; intros x _; destruct (mem x a), (mem x b); reflexivity.
+Qed.
+
+(* inclusion-exclusion on sample counts *)
+Lemma restrict_incl_excl ts a b : sortedZ ts -> canonical a -> canonical b -> Forall (fun x => far x a b) ts ->
+  (length (restrict_ts ts (iset_union a b)) + length (restrict_ts ts (iset_inter a b)) = length (restrict_ts ts a) + length (restrict_ts ts b))%nat.
+Proof.
+  intros Hs Ha Hb Hfar.
+  rewrite (restrict_inter_filter ts a b), (restrict_union_filter ts a b), (restrict_ts_spec ts a), (restrict_ts_spec ts b) by assumption.
+  clear. induction ts as [|x t IH]; [reflexivity|]. simpl.
+  destruct (mem x a), (mem x b); simpl; lia.
+Qed.
+
+Theorem C03_commute : forall ts a b, sortedZ ts -> canonical a -> canonical b ->
+  restrict_ts (restrict_ts ts a) b = restrict_ts (restrict_ts ts b) a.
+Proof. exact restrict_commute. Qed.
+Print Assumptions C03_commute.
+
+Theorem C03_restrict_union : forall ts a b, sortedZ ts -> canonical a -> canonical b -> Forall (fun x => far x a b) ts ->
+  restrict_ts ts (iset_union a b) = filter (fun x => mem x a || mem x b) ts.
+Proof. exact restrict_union_filter. Qed.
+Print Assumptions C03_restrict_union.
+
+Theorem C03_restrict_set_diff : forall ts a b, sortedZ ts -> canonical a -> canonical b -> Forall (fun x => far x a b) ts ->
+  restrict_ts ts (iset_diff a b) = filter (fun x => mem x a && negb (mem x b)) ts.
+Proof. exact restrict_diff_filter. Qed.
+Print Assumptions C03_restrict_set_diff.
+
+Theorem C03_partition : forall ts a b, sortedZ ts -> canonical a -> canonical b -> Forall (fun x => far x a b) ts ->
+  length (restrict_ts ts a) = (length (restrict_ts ts (iset_inter a b)) + length (restrict_ts ts (iset_diff a b)))%nat.
+Proof. exact restrict_partition. Qed.
+Print Assumptions C03_partition.
+
+Theorem C03_inclusion_exclusion : forall ts a b, sortedZ ts -> canonical a -> canonical b -> Forall (fun x => far x a b) ts ->
+  (length (restrict_ts ts (iset_union a b)) + length (restrict_ts ts (iset_inter a b)) = length (restrict_ts ts a) + length (restrict_ts ts b))%nat.
+Proof. exact restrict_incl_excl. Qed.
+Print Assumptions C03_inclusion_exclusion.
+
+Example C03_algebra_nonvacuous :
+  restrict_ts [2000; 7000; 12000; 22000; 27000] (iset_union [(0, 10000); (20000, 30000)] [(5000, 25000)]) = [2000; 7000; 12000; 22000; 27000]
+  /\ restrict_ts [2000; 7000; 12000; 22000; 27000] (iset_diff [(0, 10000); (20000, 30000)] [(5000, 25000)]) = [2000; 27000]
+  /\ restrict_ts [2000; 7000; 12000; 22000; 27000] (iset_inter [(0, 10000); (20000, 30000)] [(5000, 25000)]) = [7000; 22000].
+Proof. vm_compute. repeat split; reflexivity. Qed.
